@@ -15,6 +15,7 @@ SCOPES: list[tuple[str, list[str]]] = [
     ('lab.TaskState.process_tasks', ['C01', 'C02', 'C03', 'C05', 'C08', 'C11', 'C17']),
     ('lab.TaskState.insert_task', ['C01', 'C02', 'C03', 'C05', 'C11', 'C17']),
     ('lab.TaskState.complete_task', ['C01', 'C02', 'C03', 'C05', 'C06', 'C10', 'C11', 'C17']),
+    ('lab.TaskState.start_task', ['C02', 'C03', 'C04', 'C05', 'C11', 'C14', 'C17']),
     ('lab.TaskState.get_ready_tasks', ['C02', 'C04', 'C05', 'C11', 'C17']),
     ('lab.TaskState.', ['C03', 'C11']),
     ('lab.TaskCoordinator.', ['C01', 'C02', 'C03', 'C04', 'C05', 'C10', 'C11', 'C14', 'C17']),
@@ -792,3 +793,78 @@ def shared_mutable_fill(ctx: Ctx):
                 yield ctx.ob('SWEEP.SHARED-MUTABLE-FILL', False, fn, x, 'each key / slot gets its own container',
                              f'`{src(x)[:60]}` puts one and the same `{src(bad)[:20]}` object under every key / in every slot: what is added for one is seen for all')
     yield ctx.ob('SWEEP.SHARED-MUTABLE-FILL', True, None, None, f'fills scanned, {n} shared containers', construct='scan', path='labtech/')
+
+
+_KEY_SINKS_OK = {'exists', 'file_handle', 'delete', 'load_metadata', 'load_task', 'load_result', 'startswith', 'endswith', 'debug', 'info',
+                 'warning', 'error', 'find_keys', 'validate_file_path_key', '_key_to_path', 'format', 'join', 'print'}
+
+
+@rule('SWEEP.CACHE-KEY-NOT-IDENTITY', ['C01', 'C02', 'C03', 'C04', 'C05', 'C09', 'C10', 'C11', 'C17', 'C20', 'C15'])
+def cache_key_not_identity(ctx: Ctx):
+    """`task.cache_key` names a storage entry; it is not an identity for tasks.  Every task of a `cache=None` type has the same
+    key ('null'), and equal tasks can have different keys (dict insertion order, 1 vs 1.0).  Outside cache.py / storage.py the
+    key is therefore never used to index, look up, compare or deduplicate tasks (dict / set keys, `in`, `==`, `.add(...)`): doing
+    so merges unrelated uncached tasks or splits equal ones."""
+    n = 0
+    seen = 0
+    for fn in ctx.P.all_functions():
+        rel = fn.module.name.split('.', 1)[-1]
+        if rel.startswith(('cache', 'storage', 'mypy_plugin')):
+            continue
+        parents = {}
+        for x in ast.walk(fn.node):
+            for ch in ast.iter_child_nodes(x):
+                parents[id(ch)] = x
+        # locals that hold a cache key (one step): k = task.cache_key / k = f(task) where f returns .cache_key
+        key_fns = {f.qualname for f in ctx.P.all_functions()
+                   if any(isinstance(r, ast.Return) and r.value is not None and any(isinstance(a, ast.Attribute) and a.attr == 'cache_key' for a in ast.walk(r.value))
+                          for r in walk_local_nodes(f.node)) and not f.module.name.split('.', 1)[-1].startswith(('cache', 'storage'))}
+        holders = set()
+        for st in walk_local_nodes(fn.node):
+            if isinstance(st, ast.Assign) and len(st.targets) == 1 and isinstance(st.targets[0], ast.Name):
+                v = st.value
+                if (isinstance(v, ast.Attribute) and v.attr == 'cache_key') or \
+                        (isinstance(v, ast.Call) and any(q in key_fns for q in ctx.P.resolve_call(v, fn, by_name=False))):
+                    holders.add(st.targets[0].id)
+
+        def is_key(e: ast.AST) -> bool:
+            return (isinstance(e, ast.Attribute) and e.attr == 'cache_key' and isinstance(e.ctx, ast.Load)) or \
+                (isinstance(e, ast.Name) and e.id in holders and isinstance(e.ctx, ast.Load)) or \
+                (isinstance(e, ast.Call) and any(q in key_fns for q in ctx.P.resolve_call(e, fn, by_name=False)))
+
+        for x in ast.walk(fn.node):
+            if not is_key(x):
+                continue
+            seen += 1
+            p = parents.get(id(x))
+            how = None
+            if isinstance(p, ast.Subscript) and p.slice is x:
+                how = 'index'
+            elif isinstance(p, ast.Compare) and any(isinstance(o, (ast.Eq, ast.NotEq, ast.In, ast.NotIn)) for o in p.ops):
+                # comparing a stored key with the metadata's key inside the same task is a storage check, not identity
+                other = [o for o in [p.left] + list(p.comparators) if o is not x]
+                if not any(isinstance(o, ast.Subscript) and isinstance(o.slice, ast.Constant) and o.slice.value == 'cache_key' for o in other):
+                    how = 'comparison / membership'
+            elif isinstance(p, ast.Call) and isinstance(p.func, ast.Attribute) and x in p.args \
+                    and p.func.attr in ('add', 'discard', 'remove', 'append', 'setdefault', 'get', 'pop', 'index', 'count', '__contains__') \
+                    and p.func.attr not in _KEY_SINKS_OK:
+                how = f'.{p.func.attr}(...)'
+            elif isinstance(p, ast.Dict) and x in p.keys:
+                how = 'dict key'
+            elif isinstance(p, ast.Set):
+                how = 'set element'
+            elif isinstance(p, ast.DictComp) and p.key is x:
+                how = 'dict key'
+            elif isinstance(p, (ast.SetComp,)) and p.elt is x:
+                how = 'set element'
+            elif isinstance(p, ast.Tuple) and isinstance(parents.get(id(p)), (ast.Subscript, ast.Set)) :
+                how = 'part of a key tuple'
+            if how is None:
+                continue
+            if ctx.pid is not None and ctx.pid not in (scope_of(fn) or ['C01', 'C03', 'C09', 'C10']):
+                continue
+            n += 1
+            yield ctx.ob('SWEEP.CACHE-KEY-NOT-IDENTITY', False, fn, p if isinstance(p, ast.AST) else x, 'cache_key not used as a task identity',
+                         f'`{src(p)[:70]}` uses a cache key as {how}: all tasks of a cache=None type share the key \'null\' (they would be merged) and '
+                         'equal tasks may have different keys (they would be split)', construct=f'cache_key:{how}')
+    yield ctx.ob('SWEEP.CACHE-KEY-NOT-IDENTITY', True, None, None, f'{seen} cache-key reads outside cache/storage scanned, {n} identity uses', construct='scan', path='labtech/')
